@@ -1319,7 +1319,7 @@ pub fn run(args: &Args, out: &mut Out) {
         cond_case(&letters, out, &mut hist);
     }
 
-    for _ in 0..(900 * scale.min(10)) {
+    for _ in 0..(600 * scale.min(10)) {
         let spec = gen_defscan(&mut rng);
         defscan_case(&hex(spec.as_bytes()), out, &mut hist);
     }
